@@ -327,8 +327,11 @@ def shamir_reader_rules(ctx, R1, R3):
         if not collected:
             # ... and the Ok path leaves the y loop only because the input is exhausted (a `break` / `continue` on an
             # invalid element accepts the string with that element dropped)
+            def in_cycle(e):
+                b_ = e.get("home_block", e["block"])
+                return isinstance(b_, int) and any(b_ in fr.cfg.reachable_from(s_) for s_ in fr.cfg.succ[b_])
             loops = [e for e in Q.calls(eng, "Iterator::next") if e["home"] == fr.key and e.get("result") is not None and
-                     e["result"].op == "enum"]
+                     e["result"].op == "enum" and in_cycle(e)]
             cfs = Q.closure(eng, fs)
             for e in loops:
                 none_ix = [a[0] for a in e["result"].args[1] if a[1] == "None"]
